@@ -696,15 +696,11 @@ fn api_twin_case(g: &Grammar, rng: &mut Rng, rec: &mut Recorder, k: usize, idx: 
             &format!("load(write(M0)) failed: {e}; written text near the reported line: {}", near_error_line(&t, &e.to_string())),
             witness_text("API-built twin", &t, ""),
         ),
-        Ok(Ok((m1, _))) => {
-            if m1 != built {
-                rec.violation(
-                    "reloaded model differs [API-built twin]",
-                    &format!("load(write(M0)) != M0; {}", model_diff(&built, &m1)),
-                    witness_text("API-built twin", &t, ""),
-                );
-            } else if let Err((sig, detail)) = cycle_check(&built, k, "") {
-                rec.violation(&format!("{sig} [API-built twin]"), &detail, witness_text("API-built twin", &t, ""));
+        Ok(Ok(_)) => {
+            // model equality in every cycle (with the classification of the known order-only shapes)
+            if let Err((sig, detail)) = cycle_check(&built, k, "") {
+                let sig = if sig.ends_with("(input not in position order)") { sig } else { format!("{sig} [API-built twin]") };
+                rec.violation(&sig, &detail, witness_text("API-built twin", &t, ""));
             }
         }
     }
